@@ -81,7 +81,13 @@ def mkLin (lP rP lL rL : Rat) (bu : Backup := BACKUP_ALL) : Except Err LineTrans
 /-- `LineTransLin.L2P`. -/
 def l2pLin (t : LineTrans) (v : Rat) : Rat := t.offset + t.scale * v
 
-/-- `LineTransLin.wrapPos`. -/
+/-- `LineTransLin.wrapPos`.
+```
+p = (val - self._lL) / self._den
+if not math.isfinite(p): raise ExceptionLineTransBaseMath(...)
+```
+The `isfinite` guard is a pure floating-point branch: over exact rationals `p` is always finite, so the branch is
+unreachable in the model (the harness counts the float cases that take it as `fp_overflow_not_in_model`). -/
 def wrapPosLin (t : LineTrans) (v : Rat) : Int × Rat :=
   let p := (v - t.lL) / t.den
   wrapCore t.lP t.pWidth p
@@ -103,7 +109,9 @@ def mkLog (lg : Rat → Rat) (lP rP lL rL : Rat) (bu : Backup := BACKUP_ALL) : E
 def l2pLog (lg : Rat → Rat) (t : LineTrans) (v : Rat) : Except Err Rat :=
   if v ≤ 0 then .error .mathDomain else .ok (t.offset + t.scale * lg v)
 
-/-- `LineTransLog10.wrapPos`. -/
+/-- `LineTransLog10.wrapPos`.  As for the linear scale, the `try: p = log10(val / lL) / den  except (ValueError,
+OverflowError): p = inf` / `if not math.isfinite(p): raise ExceptionLineTransBaseMath` guard only fires when a float
+intermediate over/underflows; with exact rationals and `v > 0`, `lL > 0` it is unreachable. -/
 def wrapPosLog (lg : Rat → Rat) (t : LineTrans) (v : Rat) : Except Err (Int × Rat) :=
   if v ≤ 0 then .error .logMath else
   let p := lg (v / t.lL) / t.den
